@@ -513,3 +513,41 @@ Proof.
          repeat match type of H with context [if ?c then _ else _] => destruct c; try discriminate end;
          inversion H; subst; reflexivity.
 Qed.
+
+(* ---------------------------------------------------------------- the reader accepts what the writer wrote *)
+Lemma mate_indices_ok : forall n rs i,
+  (forall x d, (x < length rs)%nat -> m_dist (rget rs x) = Some d ->
+               (i + x + N.to_nat d + 1 < n)%nat) ->
+  exists mi, mate_indices_from n i rs = Some mi.
+Proof.
+  intros n. induction rs as [|r tl IH]; intros i H; cbn [mate_indices_from]; [now eexists|].
+  destruct (IH (S i)) as [rest Hrest].
+  { intros x d Hx Hd. specialize (H (S x) d). cbn [length] in H. unfold rget in *; cbn [nth] in H.
+    specialize (H ltac:(lia) Hd). lia. }
+  rewrite Hrest. destruct (m_dist r) as [d|] eqn:Ed; [|now eexists].
+  specialize (H 0%nat d). cbn [length] in H. unfold rget in H; cbn [nth] in H.
+  specialize (H ltac:(lia) Ed).
+  destruct (Nat.ltb_spec (i + N.to_nat d + 1) n); [now eexists|lia].
+Qed.
+
+(* resolve_mates never answers "invalid mate distance" (/repo 21bfe86) on a slice written by
+   set_mates + write_mate, for either writer *)
+Theorem written_slice_resolves : forall rep rs,
+  Forall fresh rs -> slice_roundtrip_gen rep rs <> MReadErr.
+Proof.
+  intros rep rs Hf. unfold slice_roundtrip_gen.
+  destruct (store_all (set_mates_gen rep rs)) as [st|] eqn:Hst; [|discriminate].
+  destruct (set_mates_gen_wf rep rs Hf) as [Hlen Hwf].
+  pose proof (store_all_length _ _ Hst) as Hl.
+  unfold resolve_mates.
+  destruct (mate_indices_ok (length st) st 0) as [mi Hmi].
+  { intros x d Hx Hd. rewrite Hl in Hx.
+    pose proof (store_all_nth _ st x Hst Hx) as Hs.
+    destruct (Hwf x Hx) as [W1 W2].
+    destruct (m_detached (rget (set_mates_gen rep rs) x)) eqn:Edet.
+    - rewrite (store_detached _ _ Edet Hs) in Hd. rewrite (W1 eq_refl) in Hd. discriminate.
+    - destruct (store_attached_dist _ _ Edet Hs) as [Hdist _]. rewrite Hdist in Hd.
+      destruct (m_down (rget (set_mates_gen rep rs) x)); [|discriminate].
+      destruct (W2 d Hd) as (_ & _ & C & _). lia. }
+  rewrite Hmi. discriminate.
+Qed.
